@@ -66,6 +66,7 @@ func ruleC14(w *World, r *Report) {
 	r.Explanation = "R14.1 the FAR handed to addEndMarker in UpdateFAR has provenance 'element of the session's stored fars', never the incoming FAR, is guarded by the send-end-marker flag and the FAR-id match, happens before the stored element is overwritten and at most once per path; " +
 		"R14.2 addEndMarker's only caller is UpdateFAR and SendEndMarkers' only caller is the modification handler; R14.3 the flag is set only under the SNDEM bit of PFCPSMReqFlags (bit mask evaluated exhaustively over uint8), reset before parsing, and Update Forwarding Parameters are read only for the update operation; " +
 		"R14.4 emission is dominated by the not-rejected branch of SendMsgToUPF(modify) and by enableEndMarker, the list is function-local; R14.5 packet literal field mapping (IPv4 src/dst, UDP 2152, GTP TEID, message type 254) from the argument FAR."
+	r.Explanation += " R14.7 wherever endMarkerChan is assigned the consumer goroutine is started in the same function, and the consumer loops have no exit other than a closed channel."
 	r.NotDecided = "the serialised bytes (gopacket); that the datapath actually transmits the packet"
 	upd := w.Fn(P, "pfcpiface.(*PFCPSession).UpdateFAR")
 	aem := w.Fn(P, "pfcpiface.addEndMarker")
@@ -257,6 +258,7 @@ func ruleC14(w *World, r *Report) {
 	}
 	ruleC14Scratch(w, r)
 	ruleC14EveryMarker(w, r)
+	ruleC14Consumer(w, r)
 	// UpdateForwardingParameters only under op == update; ForwardingParameters only under op == create
 	opUpdate := w.ConstInt(P, pfcpPkg, "update")
 	opCreate := w.ConstInt(P, pfcpPkg, "create")
@@ -470,4 +472,73 @@ func ruleC14EveryMarker(w *World, r *Report) {
 		return ok && strings.HasSuffix(symOf(s.Chan).String(), "endMarkerChan")
 	}
 	r.check(everyIteration(send, body, hdr, isPlainSend) && len(loopEarlyExits(send, hdr)) == 0, "R14.6", sn, "every marker of the list is handed to the sender (no drop, no early exit)", w.Pos(send.Pos()), "plain send on every iteration", "a marker can be skipped or the loop left early (e.g. select/default when the queue is full): the FAR update was accepted and programmed but its End Marker is never sent")
+}
+
+// ruleC14Consumer (R14.7): a queued End Marker leaves the agent only if somebody reads the queue.
+// (a) wherever a plug-in's endMarkerChan is (re)assigned, the consumer goroutine for it is started in
+// the same function or function literal — a queue created on one schedule (every initialisation) and a
+// consumer started on another (once) leave every later queue unread; (b) the consumer loop ends only
+// when its channel is closed: an early return or break on a failed write silences every later marker.
+func ruleC14Consumer(w *World, r *Report) {
+	const P = "C14"
+	loopsByOwner := map[string]*ssa.Function{
+		"bess": w.Fn(P, "pfcpiface.(*bess).endMarkerSendLoop"),
+		"UP4":  w.Fn(P, "pfcpiface.(*UP4).endMarkerSendLoop"),
+	}
+	nStores := 0
+	for _, f := range w.Funcs {
+		if strings.HasPrefix(w.FuncName(f), "test/") {
+			continue
+		}
+		allInstrs(f, func(i ssa.Instruction) {
+			st, ok := i.(*ssa.Store)
+			if !ok {
+				return
+			}
+			fa, ok := st.Addr.(*ssa.FieldAddr)
+			if !ok || fieldVar(fa) == nil || fieldVar(fa).Name() != "endMarkerChan" {
+				return
+			}
+			owner := ""
+			if nt := namedOf(fa.X.Type()); nt != nil {
+				owner = nt.Obj().Name()
+			}
+			loop := loopsByOwner[owner]
+			if loop == nil {
+				return
+			}
+			nStores++
+			started := false
+			allInstrs(f, func(j ssa.Instruction) {
+				if g, ok := j.(*ssa.Go); ok && staticCallee(g) == loop {
+					started = true
+				}
+			})
+			r.check(started, "R14.7", w.FuncName(f), owner+".endMarkerChan is assigned together with the start of its consumer", w.Pos(st.Pos()), "go endMarkerSendLoop in the same function", "the End Marker queue is (re)created here but its consumer goroutine is started elsewhere, on its own schedule: after this assignment runs again the markers go into a queue nobody reads, and the handler blocks once it is full")
+		})
+	}
+	r.floor("R14.7 assignments of endMarkerChan", nStores, 2)
+	for _, owner := range []string{"UP4", "bess"} {
+		loop := loopsByOwner[owner]
+		n := 0
+		for _, b := range loop.Blocks {
+			var recv *ssa.UnOp
+			for _, i := range b.Instrs {
+				if u, ok := i.(*ssa.UnOp); ok && u.Op == token.ARROW && u.CommaOk {
+					recv = u
+				}
+			}
+			if recv == nil || blockIf(b) == nil {
+				continue
+			}
+			n++
+			exits := loopEarlyExits(loop, b)
+			pos := w.Pos(recv.Pos())
+			if len(exits) > 0 && len(exits[0].Instrs) > 0 {
+				pos = w.Pos(posNear(exits[0].Instrs[0]))
+			}
+			r.check(len(exits) == 0, "R14.7", w.FuncName(loop), "the consumer keeps reading until the queue is closed", pos, "no return or break inside the loop", "the consumer goroutine can end while the queue is still in use (it is started once and never restarted): after that no End Marker is sent any more")
+		}
+		r.floor("R14.7 receive loop of "+owner+".endMarkerSendLoop", n, 1)
+	}
 }
